@@ -183,6 +183,8 @@ func routerOf(name string, kind byte) uint64 {
 		return utils.RIPPLE_ROUTER
 	case 'e':
 		return utils.ETH_ROUTER
+	case 'c':
+		return utils.BTC_ROUTER
 	case 'v':
 		return utils.VOTE_ROUTER
 	case 'b':
@@ -237,6 +239,15 @@ func newUniverse(cfg Config, seed uint64) *Universe {
 		}
 	}
 	sort.Strings(u.names)
+	hasBtc := false
+	for _, n := range cfg.Src {
+		if cfg.kind(n) == 'c' {
+			hasBtc = true
+			if len(cfg.Ids) != 1 || len(cfg.Tgt) != 1 {
+				vio.Fatal("the btc fixture has one deposit to one destination: use one id and one target")
+			}
+		}
+	}
 	// chain ids: small / 16-bit / 32-bit / 64-bit classes, distinct
 	for k, n := range u.names {
 		var id uint64
@@ -254,6 +265,11 @@ func newUniverse(cfg Config, seed uint64) *Universe {
 			if _, dup := u.chainByID[id]; !dup {
 				break
 			}
+		}
+		if hasBtc && cfg.kind(n) == 't' {
+			id = btcToChain // the fixture's OP_RETURN names destination chain 2
+		} else if hasBtc && id == btcToChain {
+			id = 77
 		}
 		c := &Chain{Name: n, ID: id, Router: routerOf(n, cfg.kind(n)), kind: cfg.kind(n)}
 		u.chains[n] = c
@@ -296,6 +312,11 @@ func newUniverse(cfg Config, seed uint64) *Universe {
 		u.ids[i] = b
 		u.idByHex[hex.EncodeToString(b)] = i
 	}
+	if hasBtc {
+		delete(u.idByHex, hex.EncodeToString(u.ids[cfg.Ids[0]]))
+		u.ids[cfg.Ids[0]] = btcTxid()
+		u.idByHex[hex.EncodeToString(btcTxid())] = cfg.Ids[0]
+	}
 	// messages
 	for _, s := range cfg.Src {
 		for _, i := range cfg.Ids {
@@ -305,6 +326,9 @@ func newUniverse(cfg Config, seed uint64) *Universe {
 					m := &Msg{TxHash: rng.Bytes(32), CrossChainID: u.ids[i], FromContract: rng.Bytes(20), To: u.chains[t].ID,
 						ToContract: rng.Bytes(20), Method: []string{"unlock", "", "m"}[rng.Intn(3)], Args: rng.Bytes(alen)}
 					k := mkey(s, i, t, v)
+					if u.chains[s].kind == 'c' {
+						m = btcMessage() // every variant is the same message in another serialisation
+					}
 					u.msgs[k] = m
 					if sc := u.chains[s]; sc.kind == 'r' {
 						// ripple deposits: Args = dst address, amount; the handler fills in the lock proxy and the asset
@@ -330,7 +354,9 @@ func newUniverse(cfg Config, seed uint64) *Universe {
 						out.Args = b.Bytes()
 						u.released[k] = &out
 					}
-					u.msgByHex[hex.EncodeToString(u.outMsg(k).bytes())] = k
+					if _, dup := u.msgByHex[hex.EncodeToString(u.outMsg(k).bytes())]; !dup {
+						u.msgByHex[hex.EncodeToString(u.outMsg(k).bytes())] = k
+					}
 				}
 			}
 		}
@@ -366,6 +392,12 @@ func newUniverse(cfg Config, seed uint64) *Universe {
 				for _, v := range cfg.Vars {
 					k := mkey(s, i, t, v)
 					mb := u.msgs[k].bytes()
+					if c.kind == 'c' {
+						u.imports[k+"|true"] = &importIn{input: entrance(c.ID, 0, vio.UnHex(btcProof), u.val.Address[:], btcVariant(v, rng), nil), signer: u.val.Address,
+							kind: fmt.Sprintf("btc-serialisation-%d", v)}
+						u.imports[k+"|false"] = &importIn{input: entrance(c.ID, 0, vio.UnHex(btcProof), u.val.Address[:], btcTampered(), nil), signer: u.val.Address, kind: "btc-other-tx"}
+						continue
+					}
 					if c.posa == nil {
 						h := uint32(1000 + v)
 						u.imports[k+"|true"] = &importIn{input: entrance(c.ID, h, nil, u.val.Address[:], mb, nil), signer: u.val.Address, kind: "vote"}
@@ -436,6 +468,23 @@ func (u *Universe) setup() {
 		}
 	}
 	for _, n := range u.names {
+		c := u.chains[n]
+		if c.kind != 'c' {
+			continue
+		}
+		// redeem script -> contract binding for the destination (stored directly; the real registration needs BTC multisig signatures)
+		sink := common.NewZeroCopySink(nil)
+		(&scm.ContractBinded{Contract: vio.UnHex(btcBound)}).Serialization(sink)
+		sb.Cache.Put(utils.ConcatKey(utils.SideChainManagerContractAddress, []byte(scm.REDEEM_BIND), utils.GetUint64Bytes(c.ID),
+			utils.GetUint64Bytes(btcToChain), vio.UnHex(btcRedeem)), cstates.GenRawStorageItem(sink.Bytes()))
+		sb.Cache.Commit()
+		sink = common.NewZeroCopySink(nil)
+		(&hscom.SyncGenesisHeaderParam{ChainID: c.ID, GenesisHeader: btcGenesis()}).Serialization(sink)
+		if _, _, err := sb.Call(hs.SyncGenesisHeader, r.govTx(u.val.Address), sink.Bytes()); err != nil {
+			vio.Fatal("setup: btc genesis %s: %v", n, err)
+		}
+	}
+	for _, n := range u.names {
 		if c := u.chains[n]; c.proxy != nil {
 			scm.PutAssetBind(sb.Service(nativekit.Tx(), nil), c.ID, &scm.AssetBind{AssetMap: c.asset, LockProxyMap: c.proxy})
 			sb.Cache.Commit()
@@ -499,6 +548,9 @@ func (r *Run) register(n string) error {
 	if c.posa != nil {
 		p.CCMCAddress = c.posa.ccmc.Bytes()
 		p.ExtraInfo = c.posa.extraInfo()
+	}
+	if c.kind == 'c' {
+		p.CCMCAddress = utils.GetUint64Bytes(uint64(utils.TyTestnet3))
 	}
 	sink := common.NewZeroCopySink(nil)
 	vio.Must(p.Serialization(sink))
